@@ -97,7 +97,7 @@ def gen_cases(rng, n):
                               sky_guess=float(rng.normal(0, 2)), sky_err=float(np.exp(rng.uniform(-4, 0)))))
         else:
             m = int(rng.integers(1, 7))
-            cases.append(dict(mode="multi", sky=SKY[k % 3], suffix=str(rng.choice(["", "_b"])), types=[str(rng.choice(PTYPES)) for _ in range(m)],
+            cases.append(dict(mode="multi", sky=SKY[(k // 3) % 3], suffix=str(rng.choice(["", "_b"])), types=[str(rng.choice(PTYPES)) for _ in range(m)],
                               xs=[float(v) for v in rng.uniform(0, 60, m)], ys=[float(v) for v in rng.uniform(0, 60, m)],
                               fluxes=[float(v) for v in rng.uniform(5, 500, m)], rs=[float(v) for v in rng.uniform(0.8, 6, m)],
                               thetas=[float(v) for v in rng.uniform(0, 3, m)] if rng.random() < 0.5 else None,
@@ -258,19 +258,32 @@ def photo_child(payload):
                 img = -np.asarray(R.render_source(p, c["render_as"]), dtype=np.float64) + rng.normal(0, 0.05, (N, N))
             else:
                 img = rng.normal(0, 1, (N, N))
+            # rectangular cutouts: noise columns added on both sides (the source then sits at x = xc + left, beyond the row count)
+            left, right = c.get("pad", (0, 0))
+            if left or right:
+                img = np.concatenate([rng.normal(0, 1e-3, (N, left)) * np.abs(img).max(), img, rng.normal(0, 1e-3, (N, right)) * np.abs(img).max()], axis=1)
             mask = None
             if c["mask"]:
-                mask = np.zeros((N, N), bool)
+                mask = np.zeros(img.shape, bool)
                 mask[:3, :] = True
+                if c.get("contam"):
+                    # something the mask is there to hide: undefined pixels on the border, under the mask (the source stays isolated on a
+                    # zero background, as the position clause requires; photutils' windowed centroid is not insensitive to bright masked
+                    # neighbours, which is outside this property)
+                    img = img.copy()
+                    img[0, 5] = np.nan
+                    img[1, -4:] = np.nan
             prior = PR.autoprior(img, c["ptype"], mask=mask, sky_type=c["sky"])
             ents = {k: (float(v.transforms[0].loc), float(v.transforms[0].scale)) for k, v in prior.dist_dict.items()}
+            # the chosen sky parameters are part of the generated prior: their hyper-parameters must be finite too
+            ents.update({k: (float(v.transforms[0].loc), float(v.transforms[0].scale)) for k, v in prior.sky_prior.dist_dict.items()})
             bad = {k: e for k, e in ents.items() if not (np.isfinite(e[0]) and np.isfinite(e[1]) and e[1] > 0)}
             if bad:
                 res["fails"].append(("finite", f"hyper-parameters not finite / not positive: {bad}"))
             if c["what"] == "source" and c["snr"] >= 100 and not bad:
-                dx, dy = ents["xc"][0] - c["params"]["xc"], ents["yc"][0] - c["params"]["yc"]
+                dx, dy = ents["xc"][0] - (c["params"]["xc"] + left), ents["yc"][0] - c["params"]["yc"]
                 if not (abs(dx) <= 0.25 and abs(dy) <= 0.25):
-                    res["fails"].append(("centre", f"position prior centred ({ents['xc'][0]:.3f}, {ents['yc'][0]:.3f}), source at ({c['params']['xc']:.3f}, {c['params']['yc']:.3f})"))
+                    res["fails"].append(("centre", f"position prior centred ({ents['xc'][0]:.3f}, {ents['yc'][0]:.3f}), source at ({c['params']['xc'] + left:.3f}, {c['params']['yc']:.3f}) in a {img.shape[0]}×{img.shape[1]} cutout"))
             if not bad and c["draws"]:
                 nbad = 0
                 for k in range(c["draws"]):
@@ -304,7 +317,10 @@ def gen_photo_cases(rng, n):
         if pt != "pointsource":
             params.update(r_eff=float(rng.uniform(1.5, N / 12)), n=float(rng.uniform(0.8, 4)), ellip=float(rng.uniform(0, 0.7)), theta=float(rng.uniform(0, np.pi)))
             pt_render = "sersic"
-        cases.append(dict(N=N, ptype=pt, what=what, params=params, snr=float(rng.choice([5, 20, 100, 1000, 1e4])), sky=SKY[k % 3], mask=bool(k % 2),
+        # S/N, sky, mask, contamination under the mask and rectangular padding vary independently of the profile type and of each other
+        snr = [100, 1000, 5, 1e4, 20][(k // 2) % 5]
+        pad = [(0, 0), (N // 2 + 8, 4), (0, 0), (6, N // 2)][(k // 3) % 4] if what == "source" else (0, 0)
+        cases.append(dict(N=N, ptype=pt, what=what, params=params, snr=float(snr), sky=SKY[(k // 2) % 3], mask=bool(k % 2), contam=bool(k % 4 == 1), pad=pad,
                           seed=int(rng.integers(0, 2 ** 31)), draws=40 if what == "source" else 0, render_as=pt_render))
     return cases
 
